@@ -17,7 +17,7 @@ HANDWRITTEN_DEPTH = 3      # hand-written permutations for every content reachab
 
 
 def lang_spec(name):
-    if name in ('CLSsamepair', 'CLSnoassoc'):
+    if name in ('CLSsamepair', 'CLSnoassoc', 'CLSswapfields', 'CLSunderscore'):
         return families.cls_langs()[name[3:]]
     if name == 'CLSopp':
         return families.cls_langs()['opposite']
@@ -65,6 +65,17 @@ def extra_plain_models():
     out.append(('CLSsamepair', PlainModel([('d1', 'Disk'), ('h1', 'Host')],
                                           [('Storage_Host_Disk_backupHost_backups', 'backupHost', ['h1'], 'backups', ['d1']),
                                            ('Storage_Disk_Disk_before_after', 'before', ['d1'], 'after', ['d1'])])))
+    out.append(('CLSswapfields', PlainModel([('h1', 'Host'), ('h2', 'Host'), ('r1', 'Router'), ('r2', 'Edge')],
+                                            [('Flow_Host_Router_dst_src', 'dst', ['h1'], 'src', ['r1']),
+                                             ('Flow_Host_Router', 'src', ['h1', 'h2'], 'dst', ['r2']),
+                                             ('Flow_Host_Router_dst_src', 'dst', ['h2'], 'src', ['r2'])])))
+    out.append(('CLSswapfields', PlainModel([('r1', 'Router'), ('h1', 'Host')],
+                                            [('Flow_Host_Router_dst_src', 'dst', ['h1'], 'src', ['r1'])])))
+    out.append(('CLSunderscore', PlainModel([('n', 'Net'), ('zh', 'Zone_Host'), ('nz', 'Net_Zone'), ('h', 'Host')],
+                                            [('Conn_Net_Zone_Host_zones_members', 'zones', ['n'], 'members', ['zh']),
+                                             ('Conn_Net_Zone_Host', 'zones', ['nz'], 'members', ['h'])])))
+    out.append(('CLSunderscore', PlainModel([('n', 'Net'), ('zh', 'Zone_Host')],
+                                            [('Conn_Net_Zone_Host_zones_members', 'zones', ['n'], 'members', ['zh'])])))
     out.append(('CLSnoassoc', PlainModel([('a1', 'Aa'), ('b1', 'Bb'), ('a2', 'Aa')], [])))
     out.append(('OPS2', PlainModel([('c1', 'Crate'), ('c2', 'Crate'), ('i1', 'Item'), ('i2', 'Item')],
                                    [('Part', 'whole', ['c1'], 'parts', ['c2', 'i1']), ('Contain', 'container', ['c2'], 'inside', ['i1', 'i2']),
